@@ -52,7 +52,10 @@ def load_baseline(prop):
 
 
 def okey(harness, o):
-    return "%s|%s|%s" % (harness, o.get("function", ""), o.get("class", ""))
+    # obligations generated per data member by one schema ("no container member is used before it is
+    # reset") are one obligation quantified over the members: a new member is not a new obligation
+    fn = re.sub(r"^E_(use|reset)__\w+$", r"E_\1__*", o.get("function", ""))
+    return "%s|%s|%s" % (harness, fn, o.get("class", ""))
 
 
 class Check:
